@@ -267,7 +267,7 @@ def gen_block(rng, small, odd=False, want=0):
 def gen_recipe(rng, small=False, odd=False, want=0):
     return {"epoch0": False,
             "blocks": [gen_block(rng, small, odd, want if bi == 0 else 0)
-                       for bi in range(1 if small else rng.choice([1, 2]))],
+                       for bi in range(rng.choice([1, 1, 1, 2]) if small else rng.choice([1, 2]))],
             "sections": gen_sections(rng, 2 if small else 3)}
 
 
